@@ -14,6 +14,7 @@ mod mergeh;
 mod sinkh;
 mod statsh;
 mod det;
+mod autosqlh;
 
 use serde_json::{json, Value};
 use std::io::{BufRead, BufReader, Write};
@@ -86,6 +87,7 @@ fn main() {
         "sink" => sinkh::run_case,
         "stats" => statsh::run_case,
         "det" => det::run_case,
+        "autosql" => autosqlh::run_case,
         other => {
             eprintln!("unknown subcommand {}", other);
             std::process::exit(2);
